@@ -44,6 +44,7 @@ STATES = [
     "offset-lookup-last-retry",
     "fetch-last-retry",
     "commit-in-backoff-more-progress",
+    "commit-in-backoff-two-waiters",
 ]
 
 REQUIRED_LABELS = [
@@ -106,6 +107,8 @@ def jobs(tier):
                 if cfg == "nogroup" and "commit" in state:
                     continue
                 if state == "commit-in-backoff-more-progress" and cfg != "n1":
+                    continue
+                if state == "commit-in-backoff-two-waiters" and cfg != "ms":
                     continue
                 if state == "commit-in-flight-while-processing" and cfg == "ms":
                     pass
@@ -284,6 +287,16 @@ def scenario(job):
                 w.mc = []
                 c.commit().addBoth(w.mc.append)
             w.client.fail(pending("commit"), NotCoordinator())
+        elif state == "commit-in-backoff-two-waiters":
+            # a manual commit failed with a retriable error and waits to be retried; a second commit() call made meanwhile is
+            # told that one is in progress and waits on it as well
+            w.client.resolve(pending("fetch"), block(1))
+            proc_ok()
+            w.mc = []
+            c.commit().addBoth(w.mc.append)
+            w.client.fail(pending("commit"), NotCoordinator())
+            w.mc2 = []
+            c.commit().addBoth(w.mc2.append)
         elif state == "commit-in-backoff-more-progress":
             # a count-triggered commit failed with a retriable error and is waiting to be retried; meanwhile the next block is
             # fetched and processed, which triggers the count-based auto-commit again
@@ -360,6 +373,9 @@ def scenario(job):
                     "start-deferred-fires-once-with-last-processed",
                     "start() Deferred fired %d times after stop" % len(w.res),
                 )
+                mc = getattr(w, "mc", None)
+                if mc is not None:
+                    ctx.check(len(mc) == 1, "no-commit-activity-after-stop", "a commit() Deferred obtained before stop() fired %d times once the consumer had stopped" % len(mc))
 
         after_event()
         for ev in range(K):
@@ -480,6 +496,16 @@ def scenario(job):
                     "restart-after-stop-delivers",
                     "restart: fetch issued=%r delivered=%r start result=%r" % (ok, got, r2),
                 )
+                if cfg == "ms" and ok and len(got) == 1:
+                    # the restarted consumer can commit what it processed (nothing of the previous run lingers)
+                    cm = []
+                    c.commit().addBoth(cm.append)
+                    pc_ = pending("commit")
+                    # (nothing to send when that offset is already the committed one: commit() then succeeds at once)
+                    ctx.check(pc_ is not None or (len(cm) == 1 and not isinstance(cm[0], Failure)), "restart-after-stop-delivers", "restarted consumer: commit() neither sent a request nor succeeded (%r)" % (cm,))
+                    if pc_ is not None:
+                        w.client.resolve(pc_, [OffsetCommitResponse(TOPIC, PART, 0)])
+                        ctx.check(len(cm) == 1 and not isinstance(cm[0], Failure), "restart-after-stop-delivers", "restarted consumer: commit() result %r" % (cm,))
                 c.stop()
             except Exception as e:  # noqa
                 ctx.check(False, "restart-after-stop-delivers", "restart raised %r" % (e,))
